@@ -250,20 +250,19 @@ func warningFamily() []diagTpl {
 	sh := w("shadow-unused", "body", "⟦let «v» = 1;⟧ let%NL%‹v› = 2; println(v);", `^Unused variable 'v'`)
 	sh.Hint, sh.HintRel = `shadowed here`, "within"
 	out = append(out, sh)
-	// NOT in the workload: `match v { _ => 1, «2 => 3», 4 => 5 }` ("This match-arm is unreachable" + hint "Any
-	// branches following this arm are unreachable"). The hint has to point at the default arm `_ => 1` but
-	// carries the span of the unreachable arm on the unchanged tree (analyzer.matchExpression keeps
-	// `&arm.Range` of the range-loop variable, go.mod says go 1.21: the pointer aliases the current arm) -
-	// a genuine defect, reported; see heldOutTemplates.
+	// `match v { _ => 1, «2 => 3», 4 => 5 }`: the hint has to point at the default arm (it carried the span of
+	// the unreachable arm until 92d6537: analyzer.matchExpression kept `&arm.Range` of the range-loop variable)
+	ma := w("match-arm-unreachable", "body", "let v = 1; let _m = match v { ‹_ => 1›,%NL%«2 => 3», 4 => 5 };", `^This match-arm is unreachable`)
+	ma.Hint, ma.HintRel = `^Any branches following this arm are unreachable`, "within"
+	ma.Tags = []string{heldOutTag}
+	out = append(out, ma)
 	return out
 }
 
 // heldOutTemplates are templates of constructs which violate the property on the unchanged tree
 // (reported as findings). They are not part of Cases; hvdev / a pinned literal case can run them.
 func heldOutTemplates() []diagTpl {
-	return []diagTpl{
-		{Name: "wrn-match-arm-unreachable", Kind: "body", Text: "let v = 1; let _m = match v { ‹_ => 1›,%NL%«2 => 3», 4 => 5 };", Msg: `^This match-arm is unreachable`, Rel: "nested", Level: "warning", Hint: `^Any branches following this arm are unreachable`, HintRel: "within", Gen: true, Tags: []string{heldOutTag}},
-	}
+	return nil
 }
 
 // heldOutKF / heldOutTag: once the lead has recorded the finding under this name in known_findings.txt
